@@ -266,6 +266,30 @@ def run_case(case, ctx):
                 ctx.violation(K + "vocabulary-column/after-set_params", "after set_params and a refit vocabulary_ no "
                               "longer maps token tuples to scikit-learn's columns", cfg=cfg2)
                 break
+        # history: a transform that is REFUSED (a batch holding None), then the same objects fitted on another corpus:
+        # matrix and vocabulary are again scikit-learn's
+        try:
+            p3, c3 = Parent(**o), Child(**o)
+            r1p, e1p = attempt(lambda: p3.fit_transform(corpus))
+            r1c, e1c = attempt(lambda: c3.fit_transform(corpus))
+            if e1p is None and e1c is None:
+                for bad_batch in ([None, "aa bb"], [float("nan")]):
+                    _, ebp = attempt(lambda: p3.transform(bad_batch))
+                    _, ebc = attempt(lambda: c3.transform(bad_batch))
+                corpus3 = other + ["zz yy xx", "yy xx ww vv", "zz yy"]
+                hp, hep = attempt(lambda: p3.fit_transform(corpus3))
+                hc, hec = attempt(lambda: c3.fit_transform(corpus3))
+                ctx.hit("history.refit_after_refused_transform")
+                if (hep is None) != (hec is None):
+                    ctx.violation(K + "refusal-differs/after-refused-transform", "a refused transform, then a fit on another "
+                                  "corpus: scikit-learn %r, traceable %r" % (hep, hec), cfg=cfg)
+                elif hep is None and (hp.shape != hc.shape or not numpy.allclose(hc.toarray(), hp.toarray(), **tol) or
+                                      {" ".join(k): v for k, v in c3.vocabulary_.items()} != dict(p3.vocabulary_)):
+                    ctx.violation(K + "matrix-differs/after-refused-transform", "a refused transform, then a fit on another "
+                                  "corpus: matrix or vocabulary differ from scikit-learn's (%r vs %r)" % (hc.shape, hp.shape),
+                                  cfg=cfg)
+        except Exception as e:
+            ctx.violation(K + "history-raised/%s/after-refused-transform" % type(e).__name__, str(e)[:150], cfg=cfg)
         # history: the stop list OBJECT each vectorizer holds is extended in place between two fits ("append the top
         # terms and fit again"): the effective stop list is rebuilt from the parameter at every fit and transform
         sl_p, sl_c = ["the"], ["the"]
